@@ -75,6 +75,9 @@ type Term struct {
 	Rat  *big.Rat // value of a Real constant
 	// Conservative interval of an Int term (math mode); nil = unbounded.
 	Lo, Hi *big.Int
+	// HasFP: an IEEE floating-point term occurs in the DAG below (such queries go to a
+	// non-incremental solver context, which is much faster on them).
+	HasFP bool
 	// Decl is the declare-fun text of an uninterpreted function application (emitted once).
 	Decl string
 }
@@ -116,6 +119,14 @@ func (b *Builder) mk(t *Term) *Term {
 	}
 	b.n++
 	t.ID = b.n
+	if t.Sort.K == KFP64 || t.Sort.K == KFP32 {
+		t.HasFP = true
+	}
+	for _, a := range t.Args {
+		if a.HasFP {
+			t.HasFP = true
+		}
+	}
 	b.tab[k] = t
 	return t
 }
@@ -920,7 +931,7 @@ type Printer struct {
 
 func NewPrinter() *Printer { return &Printer{defined: map[int]bool{}, funs: map[string]bool{}} }
 
-func (p *Printer) Reset() { p.defined = map[int]bool{}; p.funs = map[string]bool{} }
+func (p *Printer) Reset()     { p.defined = map[int]bool{}; p.funs = map[string]bool{} }
 func (p *Printer) Count() int { return len(p.defined) }
 
 func Ref(t *Term) string {
